@@ -553,6 +553,15 @@ func (e *Engine) havocItem(st *State, env *SpecEnv, item string) {
 									outer := st.heapGet(mapValKey(mt, "#arr"), arrSort(SInt, arrSort(ks, SInt)))
 									a := Select(Select(outer, m), k)
 									st.assume(Forall([]*Term{k}, Or(Eq(a, IntLit(0)), And(Ge(a, before), Lt(a, st.allocTerm()))), a))
+									// a nil slice has no length or capacity
+									lenK := Select(Select(st.heapGet(mapValKey(mt, "#len"), arrSort(SInt, arrSort(ks, SInt))), m), k)
+									capK := Select(Select(st.heapGet(mapValKey(mt, "#cap"), arrSort(SInt, arrSort(ks, SInt))), m), k)
+									st.assume(Forall([]*Term{k}, Implies(Eq(a, IntLit(0)), And(Eq(lenK, IntLit(0)), Eq(capK, IntLit(0)))), a))
+									st.assume(Forall([]*Term{k}, And(Ge(lenK, IntLit(0)), Le(lenK, capK)), lenK))
+									// and each decoded slice has a backing array of its own
+									k2 := BoundVar("df_k2", ks)
+									a2 := Select(Select(outer, m), k2)
+									st.assume(Forall([]*Term{k, k2}, Implies(Ne(k, k2), Or(Eq(a, IntLit(0)), Ne(a, a2))), MultiPat(a, a2)))
 								}
 							}
 						}
